@@ -2,7 +2,7 @@
 import os
 
 from . import core
-from .rules import stdio, cert, mark, exact, optstore, inval, idx, atomic, own, tokens, idxclass, copy
+from .rules import stdio, cert, mark, exact, optstore, inval, idx, atomic, own, tokens, idxclass, copy, pair, structfree
 from .effects import Effects
 
 FIX = os.path.join(os.path.dirname(os.path.abspath(__file__)), "fixtures")
@@ -83,7 +83,15 @@ def fx_copy():
     return [("R-SHALLOW fires exactly on {copy_bad, copy_half}", got == ["copy_bad", "copy_half"], str(got))]
 
 
+def fx_pair():
+    prog = core.build_fixture([os.path.join(FIX, "pair.c")])
+    r = pair.run(prog, heap=True)
+    got = sorted(v.func for v in r.violations)
+    return [("R-PAIR fires exactly on {leak_early_return, leak_goto_skip, leak_heap}", got == ["leak_early_return", "leak_goto_skip", "leak_heap"], str(got))]
+
+
 FIXTURES = {
+    "C18": [fx_pair],
     "C16": [fx_copy],
     "C07": [fx_idx],
     "C05": [fx_inval],
@@ -286,6 +294,25 @@ PROPS = {
                       "memcpy-style copies are not recognised (none in the library units today)",
         "not_decided": "entry-wise closeness of the converted numbers (value-dependent); equality of names/integrality marks in the copy; "
                        "independence of symbol tables (they are rebuilt, not copied)",
+    },
+    "C18": {
+        "rules": [lambda prog, tier: pair.run(prog, heap=True), lambda prog, tier: structfree.run(prog)],
+        "technique": "resource typestate dataflow per function on clang::CFG (set-of-tuples, return-code and parameter-fact correlation, "
+                     "allocation-fault and noreturn edges excluded); destructor coverage by ownership inference from release sites",
+        "explanation": "Decides two structural clauses of C18 on all paths, including every parse-error and rejected-argument exit: (R-PAIR) "
+                       "every local GMP number that is initialised is cleared, and every heap block held by a local pointer is released or "
+                       "handed over, on every path to every return; (R-STRUCTFREE) every pointer field of a record into which the library "
+                       "stores a fresh allocation is released by a function that frees fields of that record through a parameter of its type.",
+        "level_text": "All-paths pairing guarantee for local resources in every function of the rational instantiation (622 resources in 312 "
+                      "functions), which is where the early-exit leaks of the property live (invisible to dynamic leak checkers with the slab "
+                      "allocator). Found 20 leaking functions/fields on the pinned tree (parse-error returns in the MPS/LP readers, simplex "
+                      "helpers, number utilities, ILLlpdata::sos_type, the MPS parser's OBJNAME string), all confirmed with LeakSanitizer "
+                      "and fixed in /repo. Whole-program reachability of every block at exit is not decided.",
+        "level_note": "trusted: allocation / release recognisers (allocator calls and the library's allocation macros, free-like calls and "
+                      "release macros, frozen lists in sa/rules/pair.py); arguments of ordinary calls are borrowed, stores into fields / "
+                      "out-parameters / returns hand the block over; one reasoned exception (ILLwrite_mps objname)",
+        "not_decided": "ownership across calls in general (a callee that keeps a pointer it was lent), blocks reachable only through heap "
+                       "structures, GMP numbers inside heap arrays (covered only through the allocation macros' own loops)",
     },
     "C20": {
         "rules": [lambda prog, tier: stdio.run(prog)],
